@@ -127,22 +127,22 @@ PENDING = {}
 COMMON = (" Every shard starts after ~95 calls the library must refuse; every third call hands its optional arguments over by "
           "their documented keyword.")
 MORE = {
-    "C01": " A pool of 41 format / regex / line-break strings and names of 1 100-5 000 accidentals go through every clause.",
-    "C02": " Names of 1 100-1 800 accidentals (pure and mixed) go through the constructors, measure and the predicates.",
+    "C01": " A pool of 41 format / regex / line-break strings, names of 1 100-6 600 accidentals (beyond the shards' recursion limit) and str-subclass instances go through every clause.",
+    "C02": " Names of 1 100-3 600 accidentals (pure and mixed) and str-subclass instances go through the constructors, measure and the predicates; 131 071 distinct names in one process.",
     "C04": " The 41 hostile strings go through the six entry points; integers up to the interpreter's 4 300-digit limit.",
-    "C06": " Slash basses inside polychord halves; the 41 hostile strings as tails of valid chords and in place of the root.",
+    "C06": " Slash basses inside polychord halves; the 41 hostile strings and dash-between-digits tails on valid chords and in place of the root.",
     "C08": " substitute at depth 0/1 (sampled 2) is compared with a pitch-class model of its rules; progressions repeat degrees.",
     "C10": " One Note object driven through every setter (methods and public attributes) with queries in between (reuse shards).",
     "C11": " Notes renamed in place between steps, instruments attached, octaves up to 10^20, names to 6 / 9 accidentals.",
-    "C12": " Histories hand the container its own list and itself, empty it, and run constructors on used containers.",
-    "C13": " Edge meters (count 0 or negative, bars shorter than 1/1000) and completing entries through each placement path.",
-    "C14": " Plain lists of names / Notes with an out-of-range note at any position; names that climb octaves; odd pre-filled lengths for from_chords.",
+    "C12": " Histories hand the container its own list and itself, empty it, run constructors on used containers, add notes on any channel; one 1 020-note container under the default recursion limit.",
+    "C13": " Edge meters (count 0 or negative, bars and beats shorter than 1/1000) and completing entries through each placement path.",
+    "C14": " Plain lists of names / Notes with an out-of-range note at any position; names that climb octaves; instrument ranges changed mid-history; assignment by index; odd pre-filled lengths for from_chords.",
     "C15": " Colliding argument pairs split between battery and histories; writer scripts compared with forked children; built siblings.",
-    "C16": " 30 % of tracks / compositions are written, changed in place and written again; 20 % assembled by hand through MidiFile([track]).",
+    "C16": " 30 % of tracks / compositions are written, changed in place and written again; 20 % assembled by hand through MidiFile([track]); tempo-carrying containers and zero-tick values.",
     "C17": " 30 % of compositions are written, read, changed in place, written and read again; compositions without tracks or bars.",
-    "C18": " 40 % of samples reuse the previous sequencer and observer; bars of unequal length (balance only); tempo on empty containers.",
+    "C18": " 40 % of samples reuse the previous sequencer and observer; bars of unequal length (balance only); tempo on empty containers; bars without a meter; attach/detach histories on two sequencers.",
     "C19": " 40 % of tracks / compositions are exported, changed in place and exported again.",
-    "C20": " Notes carrying string/fret hints; a track tuning other than the explicit one; tracks rendered, extended and rendered again.",
+    "C20": " Notes carrying string/fret hints; a track tuning other than the explicit one; twin tracks on other tunings; tracks rendered, extended and rendered again.",
 }
 
 
